@@ -14,6 +14,12 @@
    _SocketManager.remove_peer_connection/close (handle_peer_context_removed first, then one error
    reply per pending request).
 
+   Object removal: the step IObjRemove models context.remove_rpc_object as ONE step (the object stops
+   being known to get_rpc_object_descriptor and handle_object_removed runs).  HYPOTHESIS made by all
+   theorems about removal: the clean-up runs while the name is still reserved, i.e. no object with the
+   same name is created between the release of the name and handle_object_removed of the previous
+   incarnation.  It is checked on every thread-level schedule by Corr.lifecycle_ok.
+
    Granularity: one step = one handler invocation (one lock region followed by its sends), except
    publish_signal which is split at its lock regions: snapshot of local receivers / one
    _receive_signal per receiver / snapshot of remote subscribers / one send per peer.
